@@ -100,3 +100,11 @@ def run_partial(h, sc, ec, P, N, kp, kn, slice=None):
     h.check("y = fnr: (upper - lower) - area", h.eq(c, (up - lo) - a))
     d = S.auc(1 - up, 1 - lo, x_axis="tnr")
     h.check("x = tnr mirrors the interval", h.eq(d, a))
+    if P * N >= 4 and slice != 0:
+        return      # the call-history obligations below add a full auc() run: small sizes and one order-type slice only
+    # call history on one object: after partial calls, the full-range results are still the Mann-Whitney statistic
+    full = S.auc()
+    wins = h.sum([h.ite(_beats(h, sc, p, n), 2, 0) for p in pos for n in neg])
+    h.check("full AUC after partial calls on the same object = Mann-Whitney statistic", h.eq(full * (2 * (P + kp) * (N + kn)), wins + 2 * kp * (N + kn) + 2 * P * kn))
+    if P * N < 4:
+        h.check("exchanged axes after partial calls: 1 - AUC", h.eq(S.auc(x_axis="tpr", y_axis="fpr") + full, 1))
